@@ -287,6 +287,7 @@ RESET_TIMER:
 			// Pre-Go 1.23: Reset does not drain the channel;
 			// callers must drain at the goto-site before arriving here.
 			timeout.Reset(time.Until(trd))
+			c = timeout.C
 		}
 	} else if timeout != nil {
 		timeout.Stop()
@@ -347,8 +348,8 @@ RESET_TIMER:
 					default:
 					}
 				}
-				goto RESET_TIMER
 			}
+			goto RESET_TIMER
 		case <-c:
 			return 0, errors.WithStack(errTimeout)
 		case <-s.chSocketReadError:
@@ -377,6 +378,7 @@ RESET_TIMER:
 			// Pre-Go 1.23: Reset does not drain the channel;
 			// callers must drain at the goto-site before arriving here.
 			timeout.Reset(time.Until(twd))
+			c = timeout.C
 		}
 	} else if timeout != nil {
 		timeout.Stop()
@@ -438,8 +440,8 @@ RESET_TIMER:
 					default:
 					}
 				}
-				goto RESET_TIMER
 			}
+			goto RESET_TIMER
 		case <-c:
 			return 0, errors.WithStack(errTimeout)
 		case <-s.chSocketWriteError:
